@@ -18,6 +18,10 @@ void svt_print_alloc_fail(const char *f, int l) { (void)f; (void)l; }
 #ifndef VH
 #define VH 4
 #endif
+#ifndef TF
+#define TF 0
+#define ISREF 0
+#endif
 #ifndef ORIGX
 #define ORIGX 2
 #define ORIGY 2
@@ -44,7 +48,7 @@ void harness(void) {
     scs->max_input_pad_right = PW - VW; scs->max_input_pad_bottom = PH - VH;
     mk_desc(in); mk_desc(rec);
     pcs->parent_pcs_ptr = ppcs; ppcs->enhanced_unscaled_picture_ptr = in;
-    int is_ref = vinbool(), tf = vinbool();
+    int is_ref = ISREF, tf = TF;      /* concrete per query: with symbolic selectors every sample read is a two-way choice feeding a 64-bit multiplier */
     ppcs->is_used_as_reference_flag = (EbBool)is_ref; ppcs->reference_picture_wrapper_ptr = rw; rw->object_ptr = ro;
     if (is_ref) { ro->reference_picture = rec; pcs->recon_picture_ptr = NULL; } else { ro->reference_picture = NULL; pcs->recon_picture_ptr = rec; }
     ppcs->temporal_filtering_on = (EbBool)tf;
@@ -54,19 +58,20 @@ void harness(void) {
     ppcs->save_enhanced_picture_ptr[0] = saved.buffer_y; ppcs->save_enhanced_picture_ptr[1] = saved.buffer_cb; ppcs->save_enhanced_picture_ptr[2] = saved.buffer_cr;
     const EbPictureBufferDesc *src = tf ? &saved : in;
     /* specification */
-    uint32_t want[3] = {0, 0, 0};
+    /* accumulated in 64 bits and truncated to 32 at the end, like the statistic is defined ("as 32-bit values") */
+    uint64_t want[3] = {0, 0, 0};
     for (int y = 0; y < VH; y++) for (int x = 0; x < VW; x++) {
         int a = src->buffer_y[(in->origin_y + y) * in->stride_y + in->origin_x + x], b = rec->buffer_y[(rec->origin_y + y) * rec->stride_y + rec->origin_x + x];
-        want[0] += (uint32_t)((a - b) * (a - b)); }
+        want[0] += (uint64_t)(((int64_t)a - b) * ((int64_t)a - b)); }
     for (int y = 0; y < VH / 2; y++) for (int x = 0; x < VW / 2; x++) {
         int a = src->buffer_cb[(in->origin_y / 2 + y) * in->stride_cb + in->origin_x / 2 + x], b = rec->buffer_cb[(rec->origin_y / 2 + y) * rec->stride_cb + rec->origin_x / 2 + x];
-        want[1] += (uint32_t)((a - b) * (a - b));
+        want[1] += (uint64_t)(((int64_t)a - b) * ((int64_t)a - b));
         a = src->buffer_cr[(in->origin_y / 2 + y) * in->stride_cr + in->origin_x / 2 + x]; b = rec->buffer_cr[(rec->origin_y / 2 + y) * rec->stride_cr + rec->origin_x / 2 + x];
-        want[2] += (uint32_t)((a - b) * (a - b)); }
+        want[2] += (uint64_t)(((int64_t)a - b) * ((int64_t)a - b)); }
     psnr_calculations(pcs, scs, EB_FALSE);
-    V_ASSERT(ppcs->luma_sse == want[0], "luma SSE equals the sum of squared differences over the visible luma samples");
-    V_ASSERT(ppcs->cb_sse == want[1], "Cb SSE equals the sum of squared differences over the visible Cb samples");
-    V_ASSERT(ppcs->cr_sse == want[2], "Cr SSE equals the sum of squared differences over the visible Cr samples");
+    V_ASSERT(ppcs->luma_sse == (uint32_t)want[0], "luma SSE equals the sum of squared differences over the visible luma samples");
+    V_ASSERT(ppcs->cb_sse == (uint32_t)want[1], "Cb SSE equals the sum of squared differences over the visible Cb samples");
+    V_ASSERT(ppcs->cr_sse == (uint32_t)want[2], "Cr SSE equals the sum of squared differences over the visible Cr samples");
     V_END();
 }
 #ifndef VERIF_CBMC
